@@ -606,6 +606,8 @@ impl World {
     fn ref_text(&self, mi: usize, sel: u32) -> String {
         const GHOST: &[&str] = &["/a", "/a/b", "/pkg1", "/pkg10", "/pkg1/x9", "/pkg10/x9", "/a/x10", "/b/a1", "/a1/x9", "/nonexistent/p", "/pkg1/a", "/a/a1", "/pkg1/x9/a", "/b",
             // paths that elements of the fixture get when they are moved to a neighbouring package or renamed to a pool name
+            // relative paths (the REF pattern allows them; they never resolve)
+            "a/b", "pkg1/x9", "x9",
             "/a/x9", "/a/a2", "/pkg10/a2", "/pkg1/x10", "/pkg10/x10", "/e/x9", "/pkg1/b", "/pkg1/a1", "/pkg1/x1a", "/pkg10/a1", "/a/pkg1", "/f/x9_1"];
         let known = self.known_paths(mi);
         if sel % 3 == 0 || known.is_empty() {
